@@ -61,13 +61,13 @@ CHECKS = {
                      "points; identical (status, {(code, field)}) for all spellings, canonical text unchanged with fix off, idempotent envelopes; one Validator OBJECT reused for every document of a worker (twice per document); schemas that validate the YAML frontmatter (packaged SKILL) over 11 frontmatter shapes; ONE schema object shared by all documents of a worker with a block-target document in every history; CLI prints exactly the plain canonical text; PCT field with a text-sensitive constraint; a field routed to an undeclared target; read-only validation (canonical text and the caller's AST) under every UNKNOWN_FIELDS policy x profile; wrong-case literal words as strings; fields named PATTERN / REGEX",
                 note="respellings are the documented lenient freedoms; the reference outcome is the canonical rendering's",
                 tech="exhaustive enumeration of respellings per (schema, instance); metamorphic equality of verdicts"),
-    "C10": dict(level="exploration", engine=E1,
+    "C10": dict(level="exploration", engine=E1 + " + E8 thread scheduler (two requests on one shared tool object)",
                 text="full product of tool arguments (content class x schema argument x profile x every flag/mode/format) for octave_validate, "
                      "octave_write, octave_eject, octave_compile_grammar and the CLI; invariants on every envelope: status present and one of the "
                      "documented values, VALIDATED only when a schema of that name exists (own directory scan) and no error-severity finding, "
                      "UNVALIDATED otherwise, INVALID iff errors; schema life cycle: every event sequence of length <=4 (thorough 5) over {install v1, install v2, delete, go away, come back} against a (cwd, file) state model - after EVERY event validate and write must answer UNVALIDATED / VALIDATED / INVALID as the state says; schema files that are found but are not well-formed OCTAVE (unloadable names); an unknown META field; the canonical text of every VALIDATED answer is re-validated by a plain call; octave_write with mutations: the verdict must be the verdict of the written file; schema names that are proper prefixes of schema file names; a frontmatter-only schema; wave 5: explicit-state walk over the cache file of a frozen@sha256 reference (install / corrupt with same size and kept times / corrupt / delete / touch, sequences <=3-4) asking octave_write after every event; two requests (one INVALID, one VALIDATED) on ONE shared ValidateTool / WriteTool in two threads under every schedule with <=1 preemption at call granularity (sys.monitoring scheduler): each answer equals the answer of the request served alone",
                 note="LENIENT/ULTRA profiles downgrade by design; W_STRUCT salvage wraps are readable content (DESIGN.md §6)",
-                tech="exhaustive enumeration of the argument product; envelope invariants"),
+                tech="exhaustive enumeration of the argument product; envelope invariants; explicit-state walks over schema-file and cache-file histories; all two-thread schedules with <=1 preemption on a shared tool"),
     "C11": dict(level="exploration", engine=E1,
                 text="2 generated schemas x every perturbation of every field value (all case variants of ENUM members, prefixes, numeric strings "
                      "in every notation, wrong kinds) x 8 placements single and repeated + missing/extra-field documents through repair(), "
@@ -93,13 +93,13 @@ CHECKS = {
                      "each output are a sub-multiset of the source model's and lossy is true iff something was removed; documents with filter keys of one mode nested under the other mode's subtree and zones whose bytes a trim / NFC pass would change; Markdown's key set must equal the OCTAVE rendering's key set of the same projection; a number shown in the Markdown rendering must be a number the source has; blank / envelope-only sources x every mode x format (no leaf may appear); Markdown heading level = nesting level for chains of 1..10 blocks, tool and CLI",
                 note="JSON/YAML cannot tell a block from an inline map; markdown compared on leaf paths only",
                 tech="exhaustive enumeration of documents x modes x formats; independent leaf extraction"),
-    "C15": dict(level="exploration", engine=E1,
+    "C15": dict(level="exploration", engine=E1 + " + E5 libc interposer (crash/fault points of in-place re-sealing)",
                 text="for every model document: seal->verify in memory / after text round trip / sealed twice / after every cosmetic respelling; "
                      "EVERY single-site content mutation (leaf replaced by same- and other-type value, key renamed, node deleted/duplicated/"
                      "moved/re-nested, META field, envelope name, frontmatter, each hash digit) must verify INVALID; unsealed -> NO_SEAL; same "
                      "through `octave seal` / `octave validate --verify-seal --require-seal`; every single comment place (incl. footer comments); cosmetic respellings of the sealed FILE through the CLI too; leaf type flips inside lists / inline maps, nodes appended after the SEAL section, verbatim documents through `octave seal`; wave 5: quoted strings spelling backslash + every letter / digit (lenient escapes) sealed to a file through the CLI (file verifies, re-sealing reproduces it, value unchanged); `octave seal f -o f` on an already sealed file killed at EVERY libc call boundary and with every call failing once (EIO, ENOSPC) under the interposer: the file is its complete previous bytes or the complete new sealed text",
                 note="comment edits are not generated as tampering (not among the sealed content kinds)",
-                tech="exhaustive enumeration of single-site mutations and respellings per document"),
+                tech="exhaustive enumeration of single-site mutations and respellings per document; kill- and fault-point enumeration of `octave seal f -o f`"),
     "C16": dict(level="fault_enumeration", engine="E5 libc interposer (vt/fsshim)",
                 text="the real write path (WriteTool, atomic_write_octave, `octave write`) runs in a child under an LD_PRELOAD libc interposer; "
                      "EVERY file-system call boundary of the fault-free run is taken as kill point, power-loss point (unsynced data lost, "
